@@ -97,15 +97,14 @@ class Case:
 def _pedigree(rng, names, ploidy_of, g):
     """rows (sample, p, q) with parents at least as polyploid as the child; returns rows, kinds, extra samples.
 
-    Hexaploid samples are founders only: call-pedigree aborts (AssertionError, NaN in pedigree/prior.py
-    trio_allele_log_pmf) for a hexaploid child with default gamete ploidy 3 - outside this property, reported separately."""
+    Hexaploid children (triploid gametes) are included: an abort of call-pedigree on them (NaN in the pedigree Gibbs
+    kernel) was found by this workload and repaired in f2fe59f (property C18)."""
     order = sorted(names, key=lambda s: -ploidy_of[s])
     rows = {s: [".", "."] for s in names}
     n = len(order)
 
     def child(i, p, q):
-        if ploidy_of[order[i]] <= 4:
-            rows[order[i]] = [p, q]
+        rows[order[i]] = [p, q]
 
     if n == 2:
         child(1, order[0], ".") if rng.random() < 0.5 else child(1, ".", order[0])
@@ -126,7 +125,7 @@ def _pedigree(rng, names, ploidy_of, g):
     kinds = set()
     if rng.random() < 0.35:
         # an unobserved parent (no BAM): appended by the program as an extra sample
-        cands = [s for s in names if "." in rows[s] and ploidy_of[s] <= 4]
+        cands = [s for s in names if "." in rows[s]]
         if cands:
             s = cands[int(rng.integers(len(cands)))]
             rows[s][rows[s].index(".")] = "U1"
